@@ -1,10 +1,74 @@
 import EaselModel.Msafile.AfaLemmas
-import EaselModel.Msafile.AbcTables
+import EaselModel.Msafile.AfaWritable
 import EaselModel.Msafile.Digitize
+/-! # C03 — writing an alignment and reading it back preserves it: property theorems
+
+Full statement (properties.jsonl): for every well-formed alignment, writing it in any of the ten formats and reading the
+output back (declared or autodetected format, text or digital) yields an alignment equal to the original in everything
+the format can represent; output is deterministic, accepted by the reader, and re-writing the re-read alignment
+reproduces the same bytes.
+
+PARTIAL at this revision: the theorems cover aligned FASTA (declared format), text mode and digital mode with the
+generated amino/DNA/RNA alphabets, for alignments of ANY size. `AfaTextWritable` / `AfaDigitalWritable` say what AFA
+can carry: ≥ 1 sequence, ≥ 1 column, names without blank/tab/NUL, descriptions that do not start with a blank and hold
+no NUL, no LF inside / CR at the end of a name line, no separate accessions (AFA prints them into the description),
+text residues graphic and not '>', digital rows well formed. `afaProject` is what AFA represents: names, rows,
+descriptions, default weights.  The other nine formats and autodetection are covered by the harness monitors only. -/
 namespace EaselModel.Props.C03
 open EaselModel.Msafile
 
-/-- the writer is a function of the alignment: equal alignments give equal bytes -/
+/-- the writer is a function of the alignment (no hidden state, no dependence on anything else) -/
 theorem afa_write_deterministic (abc : Option Abc) (m₁ m₂ : Msa) (h : m₁ = m₂) : afaWrite abc m₁ = afaWrite abc m₂ := by rw [h]
+
+/-- **AFA round trip, text mode**: `read (write m) = ok (project m)`, nothing left unread -/
+theorem afa_roundtrip_text (m : Msa) (h : AfaTextWritable m) :
+    afaRead (afaCfg none) (splitLines (afaWrite none m)) = (.ok (afaProject (afaCfg none) m), []) :=
+  afaRead_write none (afaCfg none) id m (afaTextWritable_writable m h)
+
+/-- **AFA round trip, digital mode** (amino, DNA, RNA): the digital rows come back code for code, sentinels included -/
+theorem afa_roundtrip_digital (a : Abc) (ha : a = abcAmino ∨ a = abcDna ∨ a = abcRna) (m : Msa) (h : AfaDigitalWritable a m) :
+    afaRead (afaCfg (some a)) (splitLines (afaWrite (some a) m)) = (.ok (afaProject (afaCfg (some a)) m), []) := by
+  have hs : afaDigSymOk a = true := by
+    rcases ha with h | h | h <;> subst h
+    · exact afaDigSymOk_amino
+    · exact afaDigSymOk_dna
+    · exact afaDigSymOk_rna
+  exact afaRead_write (some a) (afaCfg (some a)) (afaEnc a) m (afaDigitalWritable_writable a hs m h)
+
+/-- the general form both are instances of (any alphabet / input map for which written symbols map back) -/
+theorem afa_roundtrip (abc : Option Abc) (cfg : Cfg) (enc : UInt8 → UInt8) (m : Msa) (h : AfaWritable abc cfg enc m) :
+    afaRead cfg (splitLines (afaWrite abc m)) = (.ok (afaProject cfg m), []) :=
+  afaRead_write abc cfg enc m h
+
+/-- library-written AFA output is accepted by the reader, holds exactly one alignment (the next read is eslEOF), and the
+    alignment read back is well formed -/
+theorem afa_write_accepted (m : Msa) (h : AfaTextWritable m) :
+    (∃ m', (afaRead (afaCfg none) (splitLines (afaWrite none m))).1 = .ok m' ∧ m'.wellFormed = true) ∧
+    (afaRead (afaCfg none) (afaRead (afaCfg none) (splitLines (afaWrite none m))).2).1 = .eof := by
+  have hr := afa_roundtrip_text m h
+  have hg := afaRead_good (afaCfg none) ⟨by decide +kernel, by decide +kernel⟩ (splitLines (afaWrite none m))
+  rw [hr] at hg
+  refine ⟨⟨_, by rw [hr], hg⟩, ?_⟩
+  rw [hr]
+  simp [afaRead, runLines, afaFinish]
+
+/-- what AFA preserves: the names and the aligned rows, exactly -/
+theorem afa_preserves_names_rows (m : Msa) (h : AfaTextWritable m) :
+    (afaProject (afaCfg none) m).names = m.names ∧ (afaProject (afaCfg none) m).alen = m.alen ∧
+    ∀ i, i < m.nseq → (afaProject (afaCfg none) m).aseq.getD i [] = m.aseq.getD i [] := by
+  refine ⟨rfl, rfl, ?_⟩
+  intro i hi
+  simp [afaProject, afaCfg, Cfg.digital, Msa.stored, h.dig, List.getD_eq_getElem?_getD, hi]
+
+/-! ## non-vacuity -/
+
+/-- names "a", "bb"; rows "AC-GT", "ACGTT"; description "d e" on the first -/
+def exMsa : Msa :=
+  { alen := 5, names := [[97], [98, 98]], aseq := [[65, 67, 45, 71, 84], [65, 67, 71, 84, 84]],
+    wgt := [.dflt, .dflt], sqdesc := some [some [100, 32, 101], none] }
+
+example : afaRead (afaCfg none) (splitLines (afaWrite none exMsa)) = (.ok (afaProject (afaCfg none) exMsa), []) := by decide +kernel
+example : (afaProject (afaCfg none) exMsa).sqdesc = exMsa.sqdesc := by decide +kernel
+example : afaWrite none (afaProject (afaCfg none) exMsa) = afaWrite none exMsa := by decide +kernel
 
 end EaselModel.Props.C03
